@@ -4,7 +4,8 @@ A case is
     {"kind": "str" | "rpn", "expr": <expression text>, "mut": [<RPN mutation>...],
      "env": {"vars": [[name, value]...], "sentinels": [{"id", "attrs": [[n, value]...], "meths": [[n, kind]...]}]}}
 Values are tagged lists:  ["i",5] ["b",true] ["s","x"] ["n"] ["l",[..]] ["t",[..]] ["d",[[k,v]..]] ["S",id]
-["M",id,name] (callable attribute object) ["gen"] (a live generator: outside the modelled host).
+["M",id,name] (callable attribute object) ["gen"] (a fresh generator object: the evaluator refuses its members, format
+fields traverse it) ["s?"] (a str whose text is not modelled: rendered from a generator / frame / code object / namespace).
 
 `impl` evaluates every case twice on fresh environments:
   1. PRISTINE: nothing in graphtage is patched; the sentinel objects' `__getattribute__` is the tripwire.
@@ -50,7 +51,9 @@ class Sentinel:
         return "<S%d>" % _SID.get(id(self), 0)
 
 
-def _gen_fn():
+def _gen_fn(_hidden=41, item=2):
+    """the generator behind every ["gen"] value; its frame has locals `_hidden`, `item`, the globals of this module
+    (among them the private `_REC`, `_SID`, `__builtins__`) and the interpreter's builtins"""
     yield 1
     yield 2
 
@@ -224,26 +227,126 @@ def make_env(case):
     return NodeEnv(case) if case.get("kind") == "node" else Env(case["env"])
 
 
-def exposes_private(value, candidates):
-    """Name of nothing / the underscore keys: is `value` a mapping whose underscore-named keys are instance
-    attributes of one of the candidate tree nodes (i.e. a node's __dict__ handed out wholesale)?"""
-    import collections.abc
-    if not isinstance(value, collections.abc.Mapping):
-        return None
-    try:
-        uk = sorted(k for k in value.keys() if isinstance(k, str) and k.startswith("_"))
-    except Exception:
-        return None
-    if not uk:
-        return None
-    for n in candidates:
+_IMMUTABLE_SCALARS = (type(None), bool, int, float, complex, str, bytes, range, type(Ellipsis), type(NotImplemented))
+_CODE_LIKE = (type, types.FunctionType, types.BuiltinFunctionType, types.MethodType, types.MethodWrapperType,
+              types.WrapperDescriptorType, types.MethodDescriptorType, types.ModuleType, property, staticmethod, classmethod)
+
+
+def _identity_meaningful(o, TreeNode):
+    """Is "`o` IS the object stored under a private attribute" evidence that private state was handed out?
+
+    No for objects that CPython shares between unrelated values or whose sharing cannot be observed: None, bools,
+    numbers, strings/bytes (interned / cached), tuples and frozensets (immutable: a reference cannot be told from a
+    copy, and `SequenceNode.children()` legitimately returns the very tuple kept in `_children`), classes, functions,
+    modules.  No for tree nodes: `parent`, `children()`, `key`, `value`, `matched_to` … are documented accessors whose
+    purpose is to return the node that is also stored in `_parent` / `_children`; a node is a handle whose own state is
+    only reachable through `get_member`, i.e. under the underscore rule.  Yes for everything else: the mutable private
+    CONTAINER itself (`_children` HashableCounter / dict / list, `_edit_modifiers` list, any other mutable object)."""
+    if isinstance(o, _IMMUTABLE_SCALARS) or isinstance(o, (tuple, frozenset)) or isinstance(o, _CODE_LIKE):
+        return False
+    if isinstance(o, TreeNode):
+        return False
+    return True
+
+
+class PrivIndex:
+    """The private state of a set of tree nodes: for every node N, the entries of N's instance `__dict__` whose name
+    starts with an underscore (read with `object.__getattribute__`, the tripwire is not involved), and `N.__dict__`
+    itself."""
+
+    def __init__(self, TreeNode):
+        self.TreeNode = TreeNode
+        self.nodes = {}         # id(node) -> node
+        self.names = {}         # underscore instance-attribute name -> [node, ...]
+        self.dicts = {}         # id(node.__dict__) -> node
+        self.objs = {}          # id(identity-meaningful private value) -> (node, name)
+
+    def add(self, n):
+        if id(n) in self.nodes or not isinstance(n, self.TreeNode):
+            return
+        self.nodes[id(n)] = n
         try:
             d = object.__getattribute__(n, "__dict__")
         except Exception:
+            return
+        self.dicts[id(d)] = n
+        for k, v in list(d.items()):
+            if isinstance(k, str) and k.startswith("_"):
+                self.names.setdefault(k, []).append(n)
+                if _identity_meaningful(v, self.TreeNode):
+                    self.objs.setdefault(id(v), (n, k))
+
+    def value_of(self, name, v):
+        """does some indexed node store exactly `v` under `name`?"""
+        for n in self.names.get(name, ()):
+            try:
+                if object.__getattribute__(n, "__dict__").get(name, self) is v:
+                    return True
+            except Exception:
+                pass
+        return False
+
+
+def find_exposures(value, index, max_objects=3000, max_depth=5):
+    """THE EXPOSURE RULE.  Walk everything reachable from `value` through mappings (keys and values), dict views
+    (`items()` / `keys()` / `values()`), sequences (lists, tuples, deques, …) and sets (iterators and generators are
+    not consumed: they are inspected when the expression materialises them — every operator result is checked, so
+    `list(from.iter_state())` is seen at the `list(...)` step), to depth `max_depth`; strings / bytes are not entered,
+    and tree nodes are not entered (see `_identity_meaningful`).
+    An exposure is
+      (I)   an object that IS (identity) the `__dict__` of an indexed node;                      -> ("dict", "__dict__")
+      (II)  an object that IS (identity) a value stored under an underscore attribute of an indexed node, for objects
+            whose identity is meaningful (`_identity_meaningful`: mutable non-node objects);     -> ("object", name)
+      (III) a NAMED PAIR (k, v) — a mapping item, or a 2-element tuple/list inside an iterable — whose k is a string
+            starting with "_" that is an underscore instance-attribute name of an indexed node: the private namespace
+            of a node handed out by name.  Whether v is the very value the node stores is reported ("pair" when it is,
+            "name" when only the name matches) but both count.                                    -> ("pair"|"name", k)
+    Returns the set of (kind, name).  Documents of the stream never use a node's private attribute names as keys, so
+    (III) cannot be triggered by document data (`to_obj()` results)."""
+    import collections, collections.abc
+    found = set()
+    seen = set()
+    todo = [(value, 0)]
+    budget = max_objects
+    TreeNode = index.TreeNode
+
+    def pair(k, v):
+        if isinstance(k, str) and k.startswith("_") and k in index.names:
+            found.add(("pair" if index.value_of(k, v) else "name", k))
+
+    while todo and budget > 0:
+        o, depth = todo.pop()
+        budget -= 1
+        if isinstance(o, (str, bytes, bytearray)) or isinstance(o, _IMMUTABLE_SCALARS):
             continue
-        if all(k in d for k in uk):
-            return uk
-    return None
+        if id(o) in seen:
+            continue
+        seen.add(id(o))
+        if id(o) in index.dicts and object.__getattribute__(index.dicts[id(o)], "__dict__") is o:
+            found.add(("dict", "__dict__"))
+        hit = index.objs.get(id(o))
+        if hit is not None:
+            try:
+                if object.__getattribute__(hit[0], "__dict__").get(hit[1]) is o:
+                    found.add(("object", hit[1]))
+            except Exception:
+                pass
+        if isinstance(o, TreeNode) or isinstance(o, _CODE_LIKE) or depth >= max_depth:
+            continue
+        try:
+            if isinstance(o, collections.abc.Mapping):
+                for k, v in list(o.items())[:400]:
+                    pair(k, v)
+                    todo.append((k, depth + 1))
+                    todo.append((v, depth + 1))
+            elif isinstance(o, (collections.abc.Sequence, collections.abc.Set, collections.abc.MappingView, collections.deque)):
+                for x in list(o)[:400]:
+                    if isinstance(x, (tuple, list)) and len(x) == 2:
+                        pair(x[0], x[1])
+                    todo.append((x, depth + 1))
+        except Exception:
+            continue
+    return found
 
 
 # ---------------------------------------------------------------------------------------------------------
@@ -278,6 +381,9 @@ def _is_format_callable(a):
     return _format_kind(a) is not None
 
 
+_OPAQUE_STRS = None      # id(str) -> str : results of format calls whose text is not modelled (instrumented run only)
+
+
 def canon(v, depth=0):
     """Tagged description; anything outside the modelled host becomes ["?", type name]."""
     import graphtage.expressions as E
@@ -291,6 +397,8 @@ def canon(v, depth=0):
     if t is int:
         return ["i", v]
     if t is str:
+        if _OPAQUE_STRS is not None and _OPAQUE_STRS.get(id(v)) is v:
+            return ["s?"]
         if not v.isprintable() or any(0xD800 <= ord(c) <= 0xDFFF for c in v):
             return ["?", "str-unprintable"]
         return ["s", v]
@@ -664,7 +772,22 @@ def _parse_fmt(fmt):
     return out
 
 
-_OPAQUE = ("?", "sm", "sf", "bi", "f", "tok", "gen")
+_OPAQUE = ("?", "sm", "sf", "bi", "f", "tok")
+
+# What the Lean host (Model/ExprHost.lean: genAttr / frameAttr / codeAttr) says a PUBLIC attribute of a reflective
+# object is.  The simulation below uses it only to know which abstract value the model continues with; whether the
+# attribute really exists / what really happens is decided by the real run and compared with the model's answer.
+_CODE_ATTRS = ["co_argcount", "co_cellvars", "co_code", "co_consts", "co_exceptiontable", "co_filename", "co_firstlineno",
+               "co_flags", "co_freevars", "co_kwonlyargcount", "co_lines", "co_linetable", "co_lnotab", "co_name", "co_names",
+               "co_nlocals", "co_positions", "co_posonlyargcount", "co_qualname", "co_stacksize", "co_varnames", "replace"]
+REFL_ATTR = {
+    "gen": {"gi_frame": "frame", "gi_code": "code", "gi_running": "val", "gi_suspended": "val", "gi_yieldfrom": "val",
+            "close": "opq", "send": "opq", "throw": "opq"},
+    "frame": {"f_globals": "nsG", "f_locals": "nsL", "f_builtins": "nsB", "f_code": "code", "f_back": "val", "f_trace": "val",
+              "f_trace_lines": "val", "f_trace_opcodes": "val", "f_lasti": "opq", "f_lineno": "opq", "clear": "opq"},
+    "code": {n: "opq" for n in _CODE_ATTRS},
+}
+_FMT_LAST = {"opaque": False}
 
 
 class _Stop(Exception):
@@ -673,9 +796,19 @@ class _Stop(Exception):
         self.modelled = modelled
 
 
+def _fresh_generator(o):
+    import inspect
+    try:
+        return type(o) is types.GeneratorType and inspect.getgeneratorstate(o) == "GEN_CREATED"
+    except Exception:
+        return False
+
+
 def _sim_ref(ref, st, pos, mapping):
     """string.Formatter: auto numbering, _SafeFormatter.get_field, convert_field — on the real objects, with the
-    tripwire off.  Returns the (converted) object; raises _Stop where the real call raises or leaves the host."""
+    tripwire off.  Returns (the (converted) object, kind) where kind is None for a value the host describes exactly
+    and "gen" / "frame" / "code" / "nsG" / "nsL" / "nsB" / "opq" for what the host treats abstractly (text rendered
+    from it is not modelled); raises _Stop where the real call raises or leaves the host."""
     name, steps, conv = ref
     if name == "" and not steps:
         if st["auto"] is False:
@@ -702,13 +835,37 @@ def _sim_ref(ref, st, pos, mapping):
         raise
     except Exception:
         raise _Stop(True)
+    kind = None
+    frame = None
+    if type(obj) is types.GeneratorType:
+        if not _fresh_generator(obj):
+            raise _Stop(False)      # a started / finished generator: gi_frame may be None, outside the host
+        kind = "gen"
     for attr, k in steps:
+        if kind == "opq":
+            raise _Stop(False)      # members / items of an object the host does not describe
         if attr is not None:
             if type(obj) is Sentinel:
                 d = object.__getattribute__(obj, "__dict__")
                 if attr in d:
                     obj = d[attr]
+                    if type(obj) is types.GeneratorType:
+                        if not _fresh_generator(obj):
+                            raise _Stop(False)
+                        kind = "gen"
                     continue
+            if kind in REFL_ATTR:
+                nk = REFL_ATTR[kind].get(attr)
+                if nk is None:
+                    raise _Stop(True)       # the host answers AttributeError; the real run decides
+                try:
+                    nxt = getattr(obj, attr)
+                except Exception:
+                    raise _Stop(True)       # compared: the host says the attribute exists
+                if kind == "gen" and attr == "gi_frame" or nk == "frame":
+                    frame = nxt
+                obj, kind = nxt, (None if nk == "val" else nk)
+                continue
             try:
                 object.__getattribute__(obj, attr) if type(obj) in (Sentinel, M) else getattr(obj, attr)
             except AttributeError:
@@ -719,38 +876,68 @@ def _sim_ref(ref, st, pos, mapping):
         else:
             kk = int(k) if k.isdigit() else k
             try:
-                obj = obj[kk]
+                nxt = obj[kk]
             except Exception:
                 raise _Stop(True)
-    if has_tag(canon(obj), _OPAQUE):
-        raise _Stop(False)
+            if kind in ("nsG", "nsL", "nsB"):
+                if kind == "nsG" and kk == "__builtins__" and frame is not None and nxt is frame.f_builtins:
+                    obj, kind = nxt, "nsB"
+                else:
+                    obj, kind = nxt, "opq"
+            else:
+                obj = nxt
+                if type(obj) is types.GeneratorType:
+                    if not _fresh_generator(obj):
+                        raise _Stop(False)
+                    kind = "gen"
+    if kind is None:
+        c = canon(obj)
+        if has_tag(c, _OPAQUE):
+            raise _Stop(False)
+        if has_tag(c, ("gen",)):
+            kind = "holds-gen"      # a list / tuple / dict of the host with a generator inside: its repr is not modelled
     if conv == "r":
-        return repr(obj)
+        return (repr(obj) if kind is None else obj), ("text" if kind else None)
     if conv == "s":
-        return str(obj)
-    return obj
+        return (str(obj) if kind is None else obj), ("text" if kind else None)
+    return obj, kind
 
 
 def _fmt_modelled(fmt, args, mapping, env):
     """True iff `_safe_format(fmt, *args)` (mapping is None) / `_safe_format_map(fmt, mapping)` stays inside the
     Lean host.  Mirrors string.Formatter._vformat + _SafeFormatter.get_field just far enough to know where the
-    real call stops."""
+    real call stops.  Side result: _FMT_LAST["opaque"] — does a field render text the host does not model (then a
+    successful call is compared as ["s?"], "some str")."""
+    _FMT_LAST["opaque"] = False
     fields = _parse_fmt(fmt)
     if fields is None:
         return False
     st = {"auto": 0}                # auto_arg_index: an int, or False
     pos = list(args) if mapping is None else []
+    opaque = False
     try:
         for ref, spec in fields:
-            obj = _sim_ref(ref, st, pos, mapping)
+            obj, kind = _sim_ref(ref, st, pos, mapping)
             text = ""
             for piece in spec:
                 if isinstance(piece, str):
                     text += piece
                 else:
-                    text += format(_sim_ref(piece, st, pos, mapping), "")
+                    o2, k2 = _sim_ref(piece, st, pos, mapping)
+                    if k2 is not None:
+                        return False    # a format spec computed from unmodelled text
+                    text += format(o2, "")
+            if kind is not None:
+                opaque = True
             if text:
                 if not _SPEC_OK.match(text):
+                    return False
+                if kind == "text":
+                    continue            # a converted (!r / !s) value is a str: padded
+                if kind in ("gen", "frame", "code", "nsG", "nsL", "nsB"):
+                    _FMT_LAST["opaque"] = False
+                    return True         # TypeError: unsupported format string passed to generator.__format__ …
+                if kind == "opq":
                     return False
                 if type(obj) in (str, int):
                     continue
@@ -759,6 +946,7 @@ def _fmt_modelled(fmt, args, mapping, env):
                 return False
     except _Stop as e:
         return e.modelled
+    _FMT_LAST["opaque"] = opaque
     return True
 
 
@@ -797,9 +985,12 @@ def _seq_len(c):
 
 def step_modelled(op, raw_args, cargs, outcome, env):
     """None if the step is inside the modelled host, else a short reason."""
+    _FMT_LAST["opaque"] = False
     for c in cargs:
         if has_tag(c, ("?",)):
             return "arg-outside-host"
+        if has_tag(c, ("s?",)):
+            return "unmodelled-text-operand"
     if outcome[0] == "ok":
         if has_tag(outcome[1], ("?",)):
             return "result-outside-host"
@@ -812,7 +1003,7 @@ def step_modelled(op, raw_args, cargs, outcome, env):
         if b[0] == "gen":
             return "star-of-generator"
         if a[0] in ("sm", "sf"):
-            if has_tag(b, ("sm", "sf", "bi", "tok", "gen")):
+            if has_tag(b, ("sm", "sf", "bi", "tok")):
                 return "format-of-opaque"
             fa, fb = raw_args
             try:
@@ -927,27 +1118,107 @@ def _run_instrumented(case):
     import graphtage.expressions as E
     env = make_env(case)
     rec = Recorder()
-    log = {"reads": [], "names": [], "bad_names": [], "steps": [], "why": None, "exposed": []}
+    global _OPAQUE_STRS
+    import string as _stringmod
+    log = {"reads": [], "names": [], "bad_names": [], "steps": [], "why": None, "exposed": [], "fmt_refl": [], "refl_ns": None}
     nodes = getattr(env, "nodes", None)
+    opaque_strs = {}
+
+    REFL = tuple(set(getattr(E, "_REFLECTIVE_TYPES", ())) | {types.FrameType, types.CodeType, types.TracebackType,
+                 types.GeneratorType, types.CoroutineType, types.AsyncGeneratorType, types.ModuleType})
+    saved_get_field = _stringmod.Formatter.__dict__.get("get_field")
+
+    def logged_get_field(self, field_name, args, kwargs):
+        """string.Formatter.get_field (CPython 3.12) verbatim, plus a record of every step taken on or below an
+        object of _REFLECTIVE_TYPES (monitor `format-traverses-reflective`)."""
+        import _string
+        first, rest = _string.formatter_field_name_split(field_name)
+        obj = self.get_value(first, args, kwargs)
+        chain, first_attr, below = [], None, False
+        for is_attr, i in rest:
+            prev = obj
+            if is_attr:
+                obj = getattr(obj, i)
+            else:
+                obj = obj[i]
+            if isinstance(prev, REFL) or below:
+                if not below and not is_attr:
+                    continue        # an index step on a reflective object cannot succeed; not a member read
+                if first_attr is None:
+                    first_attr = str(i)
+                    if isinstance(prev, types.GeneratorType) and log["refl_ns"] is None:
+                        try:
+                            fr = prev.gi_frame
+                            log["refl_ns"] = {"g": sorted(k for k in fr.f_globals if isinstance(k, str)),
+                                              "l": sorted(k for k in fr.f_locals if isinstance(k, str)),
+                                              "b": sorted(k for k in fr.f_builtins if isinstance(k, str)),
+                                              "gb": fr.f_globals.get("__builtins__") is fr.f_builtins}
+                        except Exception:
+                            pass
+                below = True
+                chain.append(("%s.%s" % (type(prev).__name__, i)) if is_attr else "[%s]" % (i,))
+        if first_attr is not None and len(log["fmt_refl"]) < 6:
+            log["fmt_refl"].append({"first": first_attr, "field": str(field_name)[:200], "chain": " -> ".join(chain)[:300],
+                                    "reached": type(obj).__name__})
+        return obj, first
+
+    index = None
+    ever_seen = set()
+    if nodes is not None:
+        index = PrivIndex(env.TreeNode)
+        for n in nodes:
+            index.add(n)
+
+    def shallow(o):
+        yield o
+        if isinstance(o, (tuple, list)):
+            yield from o[:50]
 
     def check_exposure(opname, args, r):
-        if nodes is None:
+        """Attribution of an exposure (see find_exposures) to the operator application that CREATED it: the result
+        exposes something that none of its operands already exposed.  An application that involves a tree node
+        directly (the receiver of the method / attribute / subscript, or an argument) is judged against its own
+        operands only, so a second exposing method in the same expression is reported under its own key; an
+        application on plain values (`dict(z)`, `z.copy()`, `list(zip(z.keys(), z.values()))`) can only pass on what
+        an earlier step exposed and is reported only for exposures that no earlier step of this evaluation showed."""
+        if index is None:
             return
-        cands = list(nodes)
         callee = args[0] if args else None
-        owner = getattr(callee, "__self__", None) if opname == "FUNCTION_CALL" else None
-        if owner is not None and isinstance(owner, env.TreeNode):
-            cands.insert(0, owner)
-        uk = exposes_private(r, cands)
-        if uk and any(set(uk) <= set(e["all"]) for e in log["exposed"]):
-            return      # a copy / view of a mapping that was already reported at its origin (dict(z), z.copy(), …)
-        if uk:
+        inputs = list(args)
+        if opname == "FUNCTION_CALL":
+            owner = getattr(callee, "__self__", None)
+            if owner is not None:
+                inputs.append(owner)
+            import functools
+            if type(callee) is functools.partial:
+                inputs += list(callee.args)
+        direct = False
+        for x in inputs:
+            for y in shallow(x):
+                if isinstance(y, env.TreeNode):
+                    direct = True
+                    index.add(y)
+        for y in shallow(r):
+            index.add(y)        # new nodes (copy(), make_edited()): their private containers are private too
+        got = find_exposures(r, index)
+        if not got:
+            return
+        derived = set()
+        for x in inputs:
+            derived |= find_exposures(x, index)
+        new = got - derived
+        if not direct:
+            new = new - ever_seen
+        ever_seen.update(got)
+        if new:
             how = opname
             if opname == "FUNCTION_CALL":
                 how = "method:" + str(getattr(callee, "__name__", type(callee).__name__))
             elif opname == "MEMBER_ACCESS" and len(args) == 2 and hasattr(args[1], "name"):
                 how = "attribute:" + str(args[1].name)
-            log["exposed"].append({"how": how, "keys": uk[:6], "all": uk})
+            if not any(e["how"] == how for e in log["exposed"]):
+                log["exposed"].append({"how": how, "keys": sorted({n for _, n in new})[:6],
+                                       "kinds": sorted({k for k, _ in new})})
 
     saved = {"get_member": E.get_member, "get_value": E.Expression.__dict__["get_value"],
              "exec": {op: op.execute for op in E.Operator}}
@@ -989,6 +1260,9 @@ def _run_instrumented(case):
                 raise
             check_exposure(op.name, args, r)
             why = step_modelled(op.name, args, cargs, ["ok", canon(r)], env)
+            if not why and _FMT_LAST["opaque"] and type(r) is str:
+                opaque_strs[id(r)] = r      # from here on canon(r) is ["s?"]: text rendered from a reflective object
+            _FMT_LAST["opaque"] = False
             log["steps"].append(op.name)
             if why and not log["why"]:
                 log["why"] = why
@@ -1009,17 +1283,25 @@ def _run_instrumented(case):
         E.Expression.get_value = staticmethod(wrapped_get_value)
         for op in E.Operator:
             op.execute = make_exec(op, saved["exec"][op])
+        _stringmod.Formatter.get_field = logged_get_field
+        _OPAQUE_STRS = opaque_strs
         _REC = rec
         try:
             r = ex.eval(locals=env.locals)
             _REC = None
+            out["res_abs"] = ["ok", canon(r)]
+            _OPAQUE_STRS = None
             out["res"] = ["ok", canon(r)]
         except Exception as e:
             _REC = None
             out["res"] = ["exc", _exc_class(e)]
+            out["res_abs"] = out["res"]
         return out, log
     finally:
         _REC = None
+        _OPAQUE_STRS = None
+        if saved_get_field is not None:
+            _stringmod.Formatter.get_field = saved_get_field
         E.get_member = saved["get_member"]
         if not had_getattr and "getattr" in E.__dict__:
             del E.getattr
@@ -1185,6 +1467,27 @@ def _noaddr(x):
     return re.sub(r"(?<![0-9.])[0-9]{12,}(?![0-9])", "<addr>", re.sub(r"0x[0-9a-fA-F]+", "0x", json.dumps(x)))
 
 
+def _shape(x):
+    """a canonical result with every str replaced by ["s?"] (used when text was rendered from reflective objects:
+    frame reprs, namespace reprs … legitimately differ between two evaluations)"""
+    if isinstance(x, list):
+        if len(x) == 2 and x[0] == "s":
+            return ["s?"]
+        return [_shape(y) for y in x]
+    return x
+
+
+def _trim_res(r, n=400):
+    """the observation keeps a sample of very long result strings only"""
+    def go(x):
+        if isinstance(x, list):
+            if len(x) == 2 and x[0] == "s" and isinstance(x[1], str) and len(x[1]) > n:
+                return ["s", x[1][:n] + "…[%d chars]" % len(x[1])]
+            return [go(y) for y in x]
+        return x
+    return go(r)
+
+
 def impl(case):
     _state_probe("before the case")        # start from a clean module state (leaks belong to the case that made them)
     if case.get("kind") == "seq":
@@ -1202,24 +1505,33 @@ def impl(case):
     again = _eval_plain(case["expr"], case["env"]) if case.get("kind", "str") == "str" else None
     if case.get("kind") == "node" and not log["why"]:
         log["why"] = "real-tree-nodes"
-    if again is not None and _noaddr(again) != _noaddr(p["res"]):
-        obs["order_diff"] = [[case["expr"], p["res"], again]]
+    # text rendered from frames / namespaces (reprs of live objects) legitimately differs between evaluations; decided by
+    # the recorded traversal, or — for a formatter that does not go through string.Formatter.get_field — by the text
+    refl = bool(log.get("fmt_refl")) or bool(re.search(r"\b(gi_|f_globals|f_locals|f_builtins|f_code|f_back|co_)", case.get("expr") or ""))
+    same = (lambda a, b: _shape(a) == _shape(b)) if refl else (lambda a, b: _noaddr(a) == _noaddr(b))
+    if again is not None and not same(again, p["res"]):
+        obs["order_diff"] = [[case["expr"], _trim_res(p["res"]), _trim_res(again)]]
     state += _state_probe("after the repeated evaluation")
-    obs["res"] = p["res"]
+    obs["res"] = _trim_res(p["res"]) if (refl or case.get("kind") == "node") else p["res"]
+    if log.get("fmt_refl"):
+        obs["fmt_refl"] = log["fmt_refl"]
+        obs["refl_ns"] = log.get("refl_ns")
+    if i.get("res_abs") is not None and i.get("res_abs") != i.get("res"):
+        obs["res_abs"] = i["res_abs"]
     obs["tokens"] = i.get("tokens", [])
     obs["trip"] = rec.trip
     obs["classchecks"] = rec.classchecks
     obs["reads"] = log["reads"]
     obs["names"] = log["names"]
     obs["bad_names"] = log["bad_names"]
-    obs["exposed"] = [{"how": e["how"], "keys": e["keys"]} for e in log["exposed"][:4]]
+    obs["exposed"] = [{"how": e["how"], "keys": e["keys"], "kinds": e.get("kinds", [])} for e in log["exposed"][:8]]
     obs["internal_reads"] = rec.internal
     obs["dict_reads"] = sorted(set(rec.dict_reads))
     obs["nsteps"] = len(log["steps"])
     obs["ops"] = sorted(set(log["steps"]))
     why = log["why"]
-    if i.get("parse") != "ok" or _noaddr(i.get("res")) != _noaddr(p["res"]):
-        obs["diverged"] = {"pristine": p.get("res"), "instrumented": i.get("res", i.get("parse"))}
+    if i.get("parse") != "ok" or not same(i.get("res"), p["res"]):
+        obs["diverged"] = {"pristine": _trim_res(p.get("res")), "instrumented": _trim_res(i.get("res", i.get("parse")))}
     if not why:
         if p["res"][0] == "ok" and has_tag(p["res"][1], ("?",)):
             why = "final-outside-host"
@@ -1258,13 +1570,17 @@ def to_model(case, obs):
             merged[n] = v
         sents.append({"id": sd["id"], "attrs": [[n, v] for n, v in merged.items()],
                       "meths": [[n, ([k[0], _model_value(k[1])] if k[0] == "const" else [k[0]])] for n, k in sd.get("meths", [])]})
-    return {"s": "expr", "tokens": obs["tokens"], "locals": [[n, _model_value(v)] for n, v in env.get("vars", [])],
-            "sentinels": sents}
+    m = {"s": "expr", "tokens": obs["tokens"], "locals": [[n, _model_value(v)] for n, v in env.get("vars", [])],
+         "sentinels": sents}
+    if obs.get("refl_ns"):
+        # the key sets of the namespaces of the generator's frame: part of the host description, like `sentinels`
+        m["refl"] = obs["refl_ns"]
+    return m
 
 
 def expect(case, obs):
     host = [[t["obj"][1], t["name"]] for t in obs["trip"] if t["key"] in ("format-field-attribute", "format-nested-field-attribute") and t["obj"][0] == "S"]
-    return {"res": obs["res"], "reads": obs["reads"], "host": host, "names": obs["names"]}
+    return {"res": obs.get("res_abs", obs["res"]), "reads": obs["reads"], "host": host, "names": obs["names"]}
 
 
 # ---------------------------------------------------------------------------------------------------------
@@ -1295,6 +1611,10 @@ def monitor(case, obs):
             hits.append({"prop": "C19", "key": "name-outside-whitelist",
                          "what": "constraints path resolved identifier %r which is neither from/to nor a documented whitelisted builtin, or not from the given locals (%s)" % (n, label)})
         return hits
+    if case.get("meta") == "api-dump-failed":
+        hits.append({"prop": "C19", "key": "harness-api-sweep-unavailable",
+                     "what": "the public API of the node classes of the tree under test could not be listed (subprocess "
+                             "`_api_dump` failed): the deterministic exposure sweep did not run"})
     if obs.get("parse") != "ok":
         return hits
     seen = set()
@@ -1318,9 +1638,23 @@ def monitor(case, obs):
             continue
         seen_e.add(key)
         hits.append({"prop": "C19", "key": key,
-                     "what": "evaluating %r obtained a mapping keyed by a tree node's private attribute names %s "
-                             "(a node's __dict__ handed out by its public API, no underscore access by the evaluator)" % (
-                                 case["expr"], json.dumps(ex["keys"]))})
+                     "what": "evaluating %r obtained private state of a tree node through its public API, no underscore "
+                             "access by the evaluator: private attribute names %s, exposure kinds %s (dict = the node's "
+                             "__dict__ itself, object = the private mutable container itself, pair = name paired with the "
+                             "stored value, name = private attribute name as a mapping key / first element of a pair)" % (
+                                 case["expr"], json.dumps(ex["keys"]), json.dumps(ex.get("kinds", [])))})
+    seen_f = set()
+    for fr in obs.get("fmt_refl", []):
+        key = "format-traverses-reflective:" + fr["first"]
+        if key in seen_f:
+            continue
+        seen_f.add(key)
+        r = obs.get("res", ["?"])
+        shown = json.dumps(r[1] if r[0] == "ok" else r)[:300]
+        hits.append({"prop": "C19", "key": key,
+                     "what": "evaluating %r: the format field {%s} read members of reflective objects that get_member refuses "
+                             "(%s; reached a %s); _SafeFormatter.get_field vets underscore attribute names only. Result: %s" % (
+                                 case["expr"], fr["field"], fr["chain"], fr["reached"], shown)})
     for n in sorted(set(obs.get("bad_names", []))):
         hits.append({"prop": "C19", "key": "name-outside-whitelist",
                      "what": "evaluating %r resolved identifier %r which is neither a given variable nor a documented whitelisted builtin" % (case["expr"], n)})
@@ -1344,17 +1678,23 @@ def classify(case, obs):
     if case.get("kind") == "node":
         r = obs["res"]
         ir = obs.get("internal_reads", 0)
-        return "node-%s-%s/%s/own-private-reads=%s%s%s" % (case.get("builder", "json"), case.get("bind", "nodes"), "ok" if r[0] == "ok" else r[1],
+        return "node-%s-%s/%s/own-private-reads=%s%s%s%s" % (case.get("builder", "json"), case.get("bind", "nodes"), "ok" if r[0] == "ok" else r[1],
                                                       "0" if ir == 0 else "1-9" if ir < 10 else "10+",
                                                       "/dict-read-by:" + "+".join(obs["dict_reads"]) if obs.get("dict_reads") else "",
-                                                      "/EXPOSED" if obs.get("exposed") else "")
+                                                      "/EXPOSED" if obs.get("exposed") else "",
+                                                      "/format-walks-reflective" if obs.get("fmt_refl") else "")
     tag = "modelled" if not obs.get("unmodelled") else "monitor-only(" + obs["unmodelled"] + ")"
     r = obs["res"]
     res = "ok" if r[0] == "ok" else r[1]
     trip = "+".join(sorted({t["key"] for t in obs.get("trip", [])})) or "no-trip"
     n = obs.get("nsteps", 0)
     size = "0" if n == 0 else "1-3" if n <= 3 else "4-8" if n <= 8 else "9+"
-    return "%s/%s/%s/ops=%s/%s" % (case.get("kind", "str"), tag, res, size, trip)
+    refl = ""
+    if obs.get("fmt_refl"):
+        ra = obs.get("res_abs") or r
+        refl = "/format-walks-%s->%s%s" % (obs["fmt_refl"][0]["first"], obs["fmt_refl"][0]["reached"],
+                                           "/text-not-modelled" if has_tag(ra[1] if ra[0] == "ok" else [], ("s?",)) else "")
+    return "%s/%s/%s/ops=%s/%s%s" % (case.get("kind", "str"), tag, res, size, trip, refl)
 
 
 def nontrivial(case, obs):
@@ -1439,8 +1779,10 @@ def gen_env(rng):
     vars_.append(["d", ["d", [[["s", "a"], ["S", 1]], [["s", "b"], _rand_value(rng, 1, sids)], [["i", 0], _rand_scalar(rng)]][:rng.randint(0, 3)]]])
     vars_.append(["n", ["i", rng.choice([0, 1, 2, 5, -2])]])
     vars_.append(["s", ["s", rng.choice(["abc", "", "{0._priv}", "{a._priv}", "{0.pub}"])]])
-    if rng.random() < 0.15:
+    if rng.random() < 0.3:
         vars_.append(["g", ["gen"]])
+        if rng.random() < 0.5:
+            vars_.append(["dg", ["d", [[["s", "g"], ["gen"]], [["s", "a"], ["S", 1]]]]])
     if rng.random() < 0.1:
         vars_.append(["len", ["i", 7]])          # a local that shadows a whitelisted builtin
     if rng.random() < 0.1:
@@ -1717,12 +2059,94 @@ class G:
             e += "[" + rng.choice(["0", "'a'", "n", "'_priv'", "'__dict__'", "'__secret'"]) + "]"
         return e
 
+    def refl_field(self, first):
+        """a replacement field that walks from a generator into its frame / code object / namespaces (attribute steps
+        by public and underscore names, index steps with plain, underscore and missing keys), sometimes one step
+        further than the host describes"""
+        rng = self.rng
+        path = ""
+        a = rng.choice(GEN_ATTRS)
+        path += "." + a
+        if a == "gi_frame":
+            b = rng.choice(FRAME_ATTRS)
+            path += "." + b
+            if b in NS_KEYS and rng.random() < 0.8:
+                k = rng.choice(NS_KEYS[b])
+                path += "[" + k + "]"
+                if k == "__builtins__" and rng.random() < 0.7:
+                    path += "[" + rng.choice(NS_KEYS["f_builtins"]) + "]"
+            elif b == "f_code" and rng.random() < 0.7:
+                path += "." + rng.choice(CODE_ATTRS)
+            elif b == "f_back" and rng.random() < 0.5:
+                path += "." + rng.choice(FRAME_ATTRS)
+        elif a == "gi_code" and rng.random() < 0.8:
+            path += "." + rng.choice(CODE_ATTRS)
+        r = rng.random()
+        if r < 0.12:
+            path += rng.choice([".real", ".keys", ".nope", "[0]", "[a]", "._x", ".__class__", ".gi_frame", ".f_globals"])
+        conv = rng.choice(["", "", "", "!r", "!s"])
+        spec = rng.choice(["", "", "", "", ":>9", ":<40", ":^{1}", ":x"])
+        return "{" + first + path + conv + spec + "}"
+
+    def refl_format(self):
+        rng = self.rng
+        srcs = [v for v in ("g",) if v in self.vars] + ["(x.gen1(0))"] * (1 if any(m[0] == "gen1" for m in self.env["sentinels"][0]["meths"]) else 0)
+        if not srcs:
+            srcs = ["g"]
+        src = rng.choice(srcs)
+        r = rng.random()
+        if r < 0.12 and "dg" in self.vars:
+            return self.quote(rng.choice(["", "a", "<"]) + self.refl_field("g")) + ".format_map(dg)"
+        if r < 0.2:
+            return self.quote(self.refl_field("0[0]")) + ".format([" + src + "])"
+        if r < 0.3:
+            return "str.format(" + self.quote(self.refl_field("0")) + ", " + src + ")"
+        if r < 0.4:
+            return self.quote(self.refl_field("0") + rng.choice(["", " ", "{1}"]) + self.refl_field(rng.choice(["0", "1"]))) + ".format(" + src + ", " + rng.choice(["g", "5", "'ab'", "x"]) + ")"
+        if r < 0.46:
+            return "[" + self.quote(self.refl_field("0")) + ".format(" + src + "), " + rng.choice(["1", "'a'", "x"]) + "]"
+        if r < 0.5:
+            return self.quote(self.refl_field("0")) + ".format(" + src + ")" + rng.choice([" + 'a'", " == 'a'", "[0]", ".upper"])
+        return self.quote(self.refl_field("0")) + ".format(" + src + rng.choice(["", "", ", 12", ", n"]) + ")"
+
     def frame_escape(self):
         rng = self.rng
         src = rng.choice(["g", "(x.gen1(0))", "(y.gen1(1))"])
         b = "((" + src + ".gi_frame." + rng.choice(["f_builtins", "f_builtins", "f_globals"]) + ")[" + \
             self.quote(rng.choice(["getattr", "getattr", "eval", "__import__", "vars", "__builtins__"])) + "])"
         return b + "(" + rng.choice(["x, '_priv'", "x, '__dict__'", "'x._priv'", "x", "'os'"]) + ")"
+
+
+GEN_ATTRS = ["gi_frame"] * 8 + ["gi_code"] * 3 + ["gi_running", "gi_suspended", "gi_yieldfrom", "close", "send", "throw", "gi_nope", "_gi",
+                                                  "__class__", "__next__"]
+FRAME_ATTRS = ["f_globals"] * 4 + ["f_locals"] * 3 + ["f_builtins"] * 3 + ["f_code"] * 3 + ["f_back", "f_trace", "f_trace_lines",
+              "f_trace_opcodes", "f_lasti", "f_lineno", "clear", "f_nope", "_f", "__class__"]
+CODE_ATTRS = ["co_filename", "co_name", "co_qualname", "co_consts", "co_names", "co_varnames", "co_code", "co_argcount", "co_firstlineno",
+              "co_flags", "replace", "co_lines", "co_lnotab", "co_nope", "_co", "__class__"]
+NS_KEYS = {"f_globals": ["__builtins__", "__builtins__", "__name__", "__file__", "_REC", "_SID", "_gen_fn", "Sentinel", "sys", "json", "nope", "0", "_nope"],
+           "f_locals": ["_hidden", "item", "self", "nope", "0", "__class__"],
+           "f_builtins": ["getattr", "open", "__import__", "eval", "len", "__build_class__", "nope", "_", "0"]}
+# one minimal reproducer per first attribute of a generator (monitor keys format-traverses-reflective:<attr>)
+REFL_EDGE = ["'{0.gi_frame}'.format(g)", "'{0.gi_code}'.format(g)", "'{0.gi_running}'.format(g)", "'{0.gi_suspended}'.format(g)",
+             "'{0.gi_yieldfrom}'.format(g)", "'{0.close}'.format(g)", "'{0.send}'.format(g)", "'{0.throw}'.format(g)",
+             "'{0}'.format(g)", "'{0!r}'.format(g)", "'{0:>9}'.format(g)", "'{0}'.format([g])", "'{0[0]}'.format(g)", "'{0.nope}'.format(g)",
+             "'{0._x}'.format(g)", "'{0.__class__}'.format(g)", "'{0.gi_frame.f_code.co_filename}'.format(g)",
+             "'{0.gi_frame.f_globals[__builtins__][getattr]}'.format(g)", "'{0.gi_frame.f_globals[__builtins__]}'.format(g)",
+             "'{0.gi_frame.f_globals[_REC]}'.format(g)", "'{0.gi_frame.f_globals[__name__]}'.format(g)", "'{0.gi_frame.f_globals[nope]}'.format(g)",
+             "'{0.gi_frame.f_globals[0]}'.format(g)", "'{0.gi_frame.f_globals}'.format(g)", "'{0.gi_frame.f_locals}'.format(g)",
+             "'{0.gi_frame.f_locals[_hidden]}'.format(g)", "'{0.gi_frame.f_locals[item]:>5}'.format(g)", "'{0.gi_frame.f_builtins[getattr]}'.format(g)",
+             "'{0.gi_frame.f_builtins[__import__]}'.format(g)", "'{0.gi_frame.f_builtins[nope]}'.format(g)", "'{0.gi_frame.f_back}'.format(g)",
+             "'{0.gi_frame.f_back.f_code}'.format(g)", "'{0.gi_frame.f_lineno}'.format(g)", "'{0.gi_frame.f_lineno:>5}'.format(g)",
+             "'{0:>{1.gi_frame.f_lineno}}'.format('ab', g)", "'{0.gi_frame:>5}'.format(g)", "'{0.gi_frame.f_globals:>5}'.format(g)",
+             "'{0.gi_frame!r:>90}'.format(g)", "'{0.gi_frame[0]}'.format(g)", "'{0.gi_frame.nope}'.format(g)", "'{0.gi_frame._x}'.format(g)",
+             "'{0.gi_frame.f_globals[sys].modules}'.format(g)", "'{0.gi_frame.f_globals.keys}'.format(g)", "'{0.gi_frame.f_trace_lines}'.format(g)",
+             "'{0.gi_code.co_consts}'.format(g)", "'{0.gi_code.co_names!r}'.format(g)", "'{0.gi_code.nope}'.format(g)", "'{0.gi_code.__class__}'.format(g)",
+             "'{0.gi_code.co_filename.upper}'.format(g)", "str.format('{0.gi_frame.f_code.co_name}', g)", "'{g.gi_frame.f_globals[_REC]}'.format_map(dg)",
+             "'{g.gi_code.co_name}{a.pub}'.format_map(dg)", "'{0[0].gi_frame.f_locals}'.format([g])", "'{0.gi_frame.f_code}'.format(x.gen1(0))",
+             "'{0.gi_frame.f_globals[__builtins__][getattr]}'.format((x.gen1(0)))", "['{0.gi_frame}'.format(g), 1]", "'{0.gi_frame}'.format(g) + 'a'",
+             "'{0.gi_frame}{0.gi_code}{1}'.format(g, 5)", "'{0.pub}{1.gi_frame.f_lasti}'.format(x, g)", "'{0.gi_frame.f_globals[__builtins__][getattr]}{1._priv}'.format(g, x)",
+             "list(map((str.format), ['{0.gi_frame}'], [g]))", "'{0.m0.gi_frame}'.format(x)", "'{0.gen1.gi_frame}'.format(x)", "'{0.__self__}'.format(len)",
+             "'{0.real}'.format(len)", "'{0.format.__self__}'.format('a')", "'{0.gi_frame.f_globals[__builtins__][getattr]}'.format"]
 
 
 def _mutate_text(rng, s):
@@ -1860,7 +2284,29 @@ NODE_EDGE = ["from", "to", "from == to", "from.total_size", "from.parent", "to.p
              "from.add_edit_modifier(len)", "from.calculate_total_size('')[0]", "from.all_children_are_leaves('')[0]",
              "from['a']", "from['a'] == to['a']", "from[0]", "len(from)", "from in to", "not from", "hash(from)", "str(from)", "sorted([from, to])",
              "from.print(1)", "from.print_parent_context(1, 2)", "from.init_args('')[0]", "from.make_key_value_pair_node(from, to)",
-             "from.from_dict(from)", "(from.__class__)", "from.copy_from(to)", "(from.editable_dict('')[0])['_parent']"]
+             "from.from_dict(from)", "(from.__class__)", "from.copy_from(to)", "(from.editable_dict('')[0])['_parent']",
+             # the same exposure passed on by plain-value operations must stay attributed to its origin (editable_dict) only
+             "dict((from.editable_dict('')[0]))", "(from.editable_dict('')[0]).items('')[0]", "list((from.editable_dict('')[0]).items('')[0])",
+             "list(zip((from.editable_dict('')[0]).keys('')[0], (from.editable_dict('')[0]).values('')[0]))",
+             "[(from.editable_dict('')[0]), (to.editable_dict('')[0])]", "(from.editable_dict('')[0]).copy('')[0]",
+             "tuple((to.editable_dict('')[0]).items('')[0])[0]", "[list(enumerate((from.editable_dict('')[0]).items('')[0]))]",
+             "(from.children('')[0])", "from.child_indexes", "[from.parent, from.children('')[0], from.to_obj('')[0]]",
+             # format fields walking generators / frames / code objects / namespaces / modules, functions and bound methods
+             "'{0.gi_frame.f_code.co_filename}'.format((from.dfs('')[0]))", "'{0.gi_frame.f_globals[__builtins__][getattr]}'.format((from.dfs('')[0]))",
+             "'{0.gi_frame.f_locals}'.format((from.dfs('')[0]))", "'{0.gi_frame.f_locals[self]}'.format((from.dfs('')[0]))",
+             "'{0.gi_frame.f_locals[self].parent}'.format((to.dfs('')[0]))", "'{0.gi_frame.f_locals[self]._children}'.format((from.dfs('')[0]))",
+             "'{0.gi_frame.f_globals[__name__]}'.format((from.dfs('')[0]))", "'{0.gi_frame.f_globals[__spec__].origin}'.format((from.dfs('')[0]))",
+             "'{0.gi_frame.f_globals[sys].modules[os].environ[HOME]}'.format((from.dfs('')[0]))", "'{0.gi_frame.f_globals[sys].argv}'.format((from.dfs('')[0]))",
+             "'{0.gi_frame.f_globals[TreeNode].parent.fget}'.format((from.dfs('')[0]))", "'{0.gi_frame.f_globals[TreeNode].__dict__}'.format((from.dfs('')[0]))",
+             "'{0.gi_frame.f_globals[log].manager.loggerDict}'.format((from.dfs('')[0]))", "'{0.gi_frame.f_builtins[open]}'.format((from.dfs('')[0]))",
+             "'{0.gi_code.co_consts}'.format((from.dfs('')[0]))", "'{0.gi_code.co_names}'.format((from.get_all_edits(to)))", "'{0.gi_running}'.format((from.dfs('')[0]))",
+             "'{0.gi_frame.f_back}'.format((from.dfs('')[0]))", "'{0.gi_frame._x}'.format((from.dfs('')[0]))", "'{0.gi_frame.f_globals[nope]}'.format((from.dfs('')[0]))",
+             "'{0:>{1.gi_frame.f_lineno}}'.format('ab', (from.dfs('')[0]))", "str.format('{0.gi_frame.f_code.co_name}', (to.dfs('')[0]))",
+             "'{g.gi_frame.f_globals[_total_size]}'.format_map(dict([['g', (from.dfs('')[0])]]))",
+             "'{0.dfs}'.format(from)", "'{0.dfs.__self__}'.format(from)", "'{0.dfs.__func__}'.format(from)", "'{0.dfs.__func__.__globals__}'.format(from)",
+             "'{0.dfs.__code__}'.format(from)", "'{0.to_obj.__call__}'.format(from)", "'{0.dfs.gi_frame}'.format(from)", "'{0.children.__self__._children}'.format(from)",
+             "'{0.container_type.mro}'.format(from)", "'{0.container_type.__subclasses__}'.format(from)", "'{0.parent.fget}'.format(from)",
+             "'{0[_parent]}'.format(from)", "'{0[_children]}'.format(from)", "'{0.total_size.real}'.format(from)", "'{0.edited.__class__}'.format(from)"]
 
 
 PYOBJ_DOCS = [[["obj", {"a": 1, "b": [1, 2], "_hidden": "s"}], ["obj", {"a": 1, "b": [1, 3], "c": ["obj", {"n": None}]}]],
@@ -1878,26 +2324,144 @@ NODE_UNDER_EDGE = ["from['_parent']", "from['__dict__']", "to['_children']", "fr
                    "from.object['_parent']", "from.attr['__dict__']", "to.slice['_parent']", "from.args['_children']", "from.kwargs['__dict__']"]
 
 
-def node_api_names():
-    """public attribute names of every TreeNode subclass of the tree under test (so a new public method that hands
-    out private state is explored as soon as it exists)"""
+def _probe_trees():
+    """(builder, docs) of every tree the deterministic API sweep runs on"""
+    return [("json", d) for d in NODE_DOCS] + [("pyobj", d) for d in PYOBJ_DOCS] + [("ast", d) for d in AST_DOCS]
+
+
+def _api_dump():
+    """Runs in a subprocess whose `graphtage` is the tree under test (VERIF_REPO): for every node of every probe
+    tree, its class, the underscore names of its instance `__dict__`, the underscore DATA names of its class, and
+    every public name of its class with the defining function's qualified name and positional parameter counts."""
+    import inspect
+    out = []
+    for pi, (builder, docs) in enumerate(_probe_trees()):
+        try:
+            tree = NodeEnv.build(builder, docs[0])
+            nodes = list(tree.dfs())
+        except Exception:
+            continue
+        for i, n in enumerate(nodes[:15]):
+            cls = type(n)
+            unames = sorted(k for k in object.__getattribute__(n, "__dict__") if isinstance(k, str) and k.startswith("_"))
+            cnames = []
+            for k in dir(cls):
+                if k.startswith("_") and not (k.startswith("__") and k.endswith("__")):
+                    try:
+                        v = inspect.getattr_static(cls, k)
+                    except Exception:
+                        continue
+                    if not callable(v) and not isinstance(v, (staticmethod, classmethod, property)):
+                        cnames.append(k)
+            members = []
+            for k in dir(cls):
+                if k.startswith("_"):
+                    continue
+                try:
+                    sv = inspect.getattr_static(cls, k)
+                except Exception:
+                    continue
+                f = sv.__func__ if isinstance(sv, (staticmethod, classmethod)) else sv
+                if isinstance(sv, property) or not callable(f):
+                    q = getattr(getattr(sv, "fget", None), "__qualname__", None) or (cls.__name__ + "." + k)
+                    members.append([k, "attr", q, 0, 0])
+                    continue
+                q = getattr(f, "__qualname__", None) or (cls.__name__ + "." + k)
+                req, mx = 1, 2      # unknown signature: try one and two arguments
+                try:
+                    ps = list(inspect.signature(getattr(n, k)).parameters.values())
+                    pos = [p for p in ps if p.kind in (p.POSITIONAL_ONLY, p.POSITIONAL_OR_KEYWORD)]
+                    req = len([p for p in pos if p.default is p.empty])
+                    mx = len(pos) + (2 if any(p.kind == p.VAR_POSITIONAL for p in ps) else 0)
+                except Exception:
+                    pass
+                members.append([k, "call", q, req, mx])
+            out.append({"probe": pi, "sel": i, "cls": cls.__name__, "unames": unames, "cnames": sorted(cnames), "members": members})
+    print(json.dumps(out))
+
+
+_API_CACHE = {}
+
+
+def node_api():
+    """`_api_dump()` of the tree under test, obtained in a subprocess with the workers' PYTHONPATH (the engine process
+    may have the installed /repo imported, which is not necessarily the tree under test)."""
+    from .. import common as C
+    if C.REPO in _API_CACHE:
+        return _API_CACHE[C.REPO]
+    import subprocess
+    res = []
     try:
-        import graphtage
-        import graphtage.pydiff, graphtage.ast, graphtage.dataclasses  # noqa: F401  (registers the data-class node types)
-        from graphtage.tree import TreeNode
-        names = set()
-        todo = [TreeNode]
-        while todo:
-            c = todo.pop()
-            names.update(n for n in dir(c) if not n.startswith("_"))
-            todo.extend(c.__subclasses__())
-        return sorted(names)
+        p = subprocess.run([C.PY, "-c", "import harness.streams.expr as X; X._api_dump()"], capture_output=True, text=True,
+                           cwd=C.VERIF, env=C._worker_env(), timeout=120)
+        res = json.loads(p.stdout.strip().splitlines()[-1])
     except Exception:
-        return ["children", "dfs", "editable_dict", "parent", "to_obj", "total_size", "copy", "is_leaf"]
+        res = []
+    _API_CACHE[C.REPO] = res
+    return res
+
+
+def node_api_names():
+    names = sorted({m[0] for nd in node_api() for m in nd["members"]})
+    return names or ["children", "dfs", "editable_dict", "parent", "to_obj", "total_size", "copy", "is_leaf"]
+
+
+# `__class__` is not swept: isinstance() / type checks inside graphtage's own methods ask the runtime for `__class__` of
+# their operands, which the name-driven tripwire cannot tell from getattr(self, '__class__') (see the assumptions)
+STD_UNDER = ["__dict__"]
+
+
+def gen_api_sweep():
+    """DETERMINISTIC (no rng): every public member of every node class of the tree under test, identified by the
+    function that defines it, is
+      * read as an attribute (`from.name`),
+      * called without arguments when it accepts that (`(from.name('')[0])`),
+      * called with EVERY underscore attribute name (instance `__dict__` names of the receiver, underscore data names
+        of its class, `__dict__`) in each of its first two positional parameters, the other parameters
+        filled with plain values,
+    on a node that really has that private attribute whenever the probe trees contain one."""
+    probes = _probe_trees()
+    out, done = [], set()
+
+    def case(nd, e):
+        b, docs = probes[nd["probe"]]
+        c = {"kind": "node", "expr": e, "docs": docs, "sel": [nd["sel"], nd["sel"]]}
+        if b != "json":
+            c["builder"] = b
+        return c
+
+    api = node_api()
+    if not api:
+        # never silently: without the API listing the sweep is empty and a new exposing method would go unnoticed
+        return [{"kind": "node", "expr": "from", "docs": NODE_DOCS[3], "sel": [0, 0], "meta": "api-dump-failed"}]
+    # nodes that own a name first: `from.get('_children')` should run on a node that has `_children`
+    for own in (True, False):
+        for nd in api:
+            unames = list(nd["unames"]) if own else list(nd["unames"]) + list(nd["cnames"]) + STD_UNDER
+            for nm, kind, qual, req, mx in nd["members"]:
+                if (qual, "") not in done:
+                    done.add((qual, ""))
+                    out.append(case(nd, "from.%s" % nm))
+                    if kind == "call" and req == 0:
+                        out.append(case(nd, "(from.%s('')[0])" % nm))
+                if kind != "call" or mx == 0:
+                    continue
+                for u in unames:
+                    if (qual, u) in done:
+                        continue
+                    done.add((qual, u))
+                    for p in range(min(mx, 2)):
+                        n = max(req, p + 1)
+                        if n > 4:
+                            continue
+                        args = ["0"] * n
+                        args[p] = "'%s'" % u
+                        out.append(case(nd, "from.%s(%s)" % (nm, ", ".join(args))))
+    return out
 
 
 def gen_nodes(rng, tier):
-    out = []
+    out = gen_api_sweep()
     api = node_api_names()
     def case(e, bind=None, builder=None):
         builder = builder or rng.choice(["json", "json", "pyobj", "ast", "ast"])
@@ -2006,14 +2570,15 @@ def gen(rng, tier):
     # edge stream: every edge expression over a rich fixed environment and over a random one
     fixed = {"vars": [["x", ["S", 1]], ["y", ["S", 2]], ["l", ["l", [["i", 1], ["S", 1], ["s", "a"]]]], ["t", ["t", [["i", 4], ["S", 2]]]],
                       ["d", ["d", [[["s", "a"], ["S", 1]], [["s", "b"], ["i", 2]], [["i", 0], ["s", "zero"]]]]], ["n", ["i", 5]],
-                      ["s", ["s", "{0._priv}"]], ["g", ["gen"]], ["from", ["S", 1]], ["to", ["S", 2]]],
+                      ["s", ["s", "{0._priv}"]], ["g", ["gen"]], ["dg", ["d", [[["s", "g"], ["gen"]], [["s", "a"], ["S", 1]]]]],
+                      ["from", ["S", 1]], ["to", ["S", 2]]],
              "sentinels": [{"id": 1, "attrs": [["pub", ["i", 5]], ["_priv", ["s", "SECRET1"]], ["__secret", ["i", 41]], ["child", ["S", 2]],
                                                 ["items", ["l", [["i", 1], ["S", 2]]]], ["name", ["s", "one"]]],
                             "meths": [["m0", ["const", ["i", 5]]], ["priv0", ["const", ["s", "SECRET1"]]], ["id1", ["ident"]],
                                       ["pair2", ["pair"]], ["gen1", ["gen"]]]},
                            {"id": 2, "attrs": [["pub", ["s", "two"]], ["_priv", ["S", 1]], ["offset", ["i", 3]], ["val", ["n"]]],
                             "meths": [["m0", ["const", ["s", "two"]]], ["id1", ["ident"]], ["gen1", ["gen"]]]}]}
-    for e in EDGE:
+    for e in EDGE + REFL_EDGE:
         cases.append(_case(rng, e, env=fixed))
     reps = 1 if tier == "quick" else 6
     for _ in range(reps):
@@ -2038,12 +2603,17 @@ def gen(rng, tier):
             text = g.format_call()
         elif r < 0.70:
             text = g.member_chain()
-        elif r < 0.74:
+        elif r < 0.73:
             text = g.frame_escape()
         elif r < 0.80:
+            if "g" not in names:
+                env = dict(env, vars=env["vars"] + [["g", ["gen"]], ["dg", ["d", [[["s", "g"], ["gen"]], [["s", "a"], ["S", 1]]]]]])
+                g = G(rng, names + ["g", "dg"], env)
+            text = g.refl_format()
+        elif r < 0.84:
             text = g.postfix(2)
         else:
-            text = _mutate_text(rng, rng.choice([g.expr(2), g.format_call(), g.member_chain(), rng.choice(EDGE)]))
+            text = _mutate_text(rng, rng.choice([g.expr(2), g.format_call(), g.member_chain(), rng.choice(EDGE), g.refl_format() if "g" in names else g.format_call()]))
         if len(text) > 300:
             continue
         if rng.random() < 0.15:
@@ -2106,6 +2676,12 @@ def shrink(case):
             yield dict(case, tokens=t2, expr=_tok_text(t2))
         return
     s = case["expr"]
+    # 0. a format field that walks into a generator: jump to the minimal reproducer of each member it names
+    minimal_env = {"vars": [["g", ["gen"]]], "sentinels": []}
+    if re.fullmatch(r"'\{0\.[a-z_]+\}'\.format\(g\)", s) and env == minimal_env and case.get("kind", "str") == "str":
+        return      # already the minimal reproducer (corpus/expr/32..39)
+    for a in sorted(set(re.findall(r"\.(gi_[a-z]+|close|send|throw)\b", s))):
+        yield {"kind": "str", "expr": "'{0.%s}'.format(g)" % a, "env": minimal_env}
     # 1. drop everything of the environment that the text does not mention, in one go
     vars2 = [v for v in env["vars"] if v[0] in s]
     sents2 = [dict(sd, attrs=[a for a in sd["attrs"] if a[0] in s], meths=[m for m in sd["meths"] if m[0] in s])
